@@ -27,6 +27,7 @@ import DK.Props.C18
 import DK.Props.C19
 import DK.Props.C20
 import DK.Props.TreeGrad
+import DK.Props.Link
 import DK.Lemmas.Bridge
 /-!
 # All property modules together (built by setup_cmd; also checks that the helper-lemma layers do not clash)
